@@ -611,6 +611,9 @@ fn cmd_run(prop: &str, seed_or_index: &str, verbose: bool) -> i32 {
 fn main() {
     seq::install_panic_hook();
     let args: Vec<String> = std::env::args().skip(1).collect();
+    if matches!(args.first().map(|s| s.as_str()), Some("worker") | Some("traces") | Some("exec-case") | Some("replay-inner") | Some("oneshot") | Some("run")) {
+        simos::limit_address_space();
+    }
     let code = match args.first().map(|s| s.as_str()) {
         Some("check") if args.len() >= 3 => cmd_check(&args[1], &args[2]),
         Some("worker") if args.len() >= 8 => cmd_worker(&args[1..]),
